@@ -441,5 +441,5 @@ def run(tier, seed, replay):
         extra=lambda rep, tier, seed: (e2e(rep, tier, seed) or 0) + crate_stream(rep, tier, seed) + skip_range_stream(rep, tier, seed),
         rule="seeded random texts of 1..8 lines built from code / long runs / tabs / trailing blanks (space, tab, U+00A0, U+3000) / line and block comments / strings spanning lines / CRLF, with 0..3 trailing newlines; max_width in {20,25,30,40,60,100}, tab_spaces 1..8, both error options on/off, random skipped ranges and line selections; non-trivial = at least one diagnostic; distinct by hash",
         per_file=100,
-        ties=["C07"],
+        ties=["C07"] + (["C07nl"] if tier == "thorough" else []),
     )
